@@ -38,7 +38,7 @@ OutMatches(fin, out) ==
 Explains(fin, r) ==
   /\ r.out.k \in {"v", "e"}                       \* a panic or a time-out is never a behaviour
   /\ \/ fin.dev                                   \* outside what the properties pin down: value or error suffices
-     \/ (LogMatches(fin.log, r.log) /\ OutMatches(fin, r.out))
+     \/ ((("nolog" \in DOMAIN r) \/ LogMatches(fin.log, r.log)) /\ OutMatches(fin, r.out))
 
 \* Cases replayed from model-generated vectors carry the prefix symbols the model built: the
 \* intended tree is then the specification's own (macro-expanded) tree, not the one the
@@ -58,6 +58,13 @@ Finals(r) == IF "syms" \in DOMAIN r
 \* x.f(args) and f(x, args), recorded side by side, must have the same outcome
 SameOutcome(o1, o2) == \/ (o1.k = "v" /\ o2.k = "v" /\ Same(o1.v, o2.v))
                        \/ (o1.k = "e" /\ o2.k = "e" /\ o1.c = o2.c)
+\* C05: executing never changes the context it ran against, nor any value obtained earlier from it
+\* or from earlier executions (each entry of `held` pairs a value's first encoding with its current one)
+PureOK(r) ==
+  /\ ("vars_after" \in DOMAIN r) =>
+        /\ Len(r.vars_after) = Len(r.vars)
+        /\ \A i \in 1..Len(r.vars) : r.vars_after[i][1] = r.vars[i][1] /\ Same(r.vars[i][2], r.vars_after[i][2])
+  /\ ("held" \in DOMAIN r) => \A i \in 1..Len(r.held) : Same(r.held[i][1], r.held[i][2])
 TwinOK(r) == "twin" \in DOMAIN r => (SameOutcome(r.out, r.twin.out) /\ Len(r.log) = Len(r.twin.log))
 
 Init == l = 1 /\ bad = << >> /\ ndev = 0
@@ -66,7 +73,7 @@ Next == /\ l <= Len(Rec)
         /\ LET r == Rec[l]
                fs == Finals(r)
            IN
-           /\ bad' = IF (\E fin \in fs : Explains(fin, r)) /\ TwinOK(r) THEN bad ELSE Append(bad, r.id)
+           /\ bad' = IF (\E fin \in fs : Explains(fin, r)) /\ TwinOK(r) /\ PureOK(r) THEN bad ELSE Append(bad, r.id)
            /\ ndev' = IF r.out.k \in {"v", "e"} /\ \A fin \in fs : fin.dev THEN ndev + 1 ELSE ndev
 Spec == Init /\ [][Next]_vars
 
